@@ -1,4 +1,5 @@
 import SpgProofs.Properties.C04
+import SpgProofs.Properties.C04b
 #print axioms Spg.C04.body_eq_choices
 #print axioms Spg.C04.generate_factors
 #print axioms Spg.C04.capChoice_eq_one
@@ -11,3 +12,15 @@ import SpgProofs.Properties.C04
 #print axioms Spg.C04.posChoice_prob
 #print axioms Spg.C04.choices_prob
 #print axioms Spg.C04.words_uniform_const_sep
+#print axioms Spg.C04.proper_of_noZero
+#print axioms Spg.C04.Proper_bind
+#print axioms Spg.C04.proper_next
+#print axioms Spg.C04.proper_sep
+#print axioms Spg.C04.proper_posChoice
+#print axioms Spg.C04.proper_choices
+#print axioms Spg.C04.E_choices_succ
+#print axioms Spg.C04.posChoice_word
+#print axioms Spg.C04.word_marginal
+#print axioms Spg.C04.posChoice_sep
+#print axioms Spg.C04.sep_marginal
+#print axioms Spg.C04.word_pair_independent
